@@ -74,6 +74,67 @@ def _decoded_option(body, op, depth=0):
     return False
 
 
+def _decoded_field(fx, body, op):
+    """the operand is `acc.<field>` (through unwrap / ok_or / ? / take) of a crate accumulator struct whose every store to
+    that field, anywhere in the crate, is Some(<result of a read_box call>) (or None)"""
+    pl = op_place(op)
+    fld = None
+    for _ in range(10):
+        if pl is None:
+            return False
+        flds = [x for x in pl["p"] if isinstance(x, dict) and "f" in x and x.get("adt") in fx.adts]
+        if flds:
+            fld = (flds[-1]["adt"], flds[-1]["f"])
+            break
+        ds = body.defs().get(pl["l"], [])
+        if len(ds) != 1:
+            return False
+        kind, payload = ds[0][2], ds[0][3]
+        if kind == "call":
+            tail = (payload["callee"].get("path") or "").split("::")[-1]
+            if tail in ("unwrap", "expect", "ok_or", "ok_or_else", "branch", "take", "clone") and payload["args"]:
+                pl = op_place(payload["args"][0])
+                continue
+            return False
+        if kind == "assign" and payload["k"] in ("use", "cast"):
+            pl = op_place(payload["a"])
+            continue
+        if kind == "assign" and payload["k"] == "ref":
+            pl = payload["place"]
+            continue
+        return False
+    if fld is None:
+        return False
+    some = 0
+    for fid, fn in fx.fns.items():
+        b2 = body_of(fn)
+        if b2 is None or fn.get("derived"):
+            continue
+        for bb in b2.reach:
+            for s_ in b2.stmts(bb):
+                if s_["k"] != "assign" or not s_["place"]["p"]:
+                    continue
+                last_ = s_["place"]["p"][-1]
+                if not (isinstance(last_, dict) and last_.get("adt") == fld[0] and last_.get("f") == fld[1]):
+                    continue
+                rv = s_["rv"]
+                for _h in range(3):
+                    if rv["k"] in ("use", "cast"):
+                        src = op_place(rv["a"])
+                        sd_ = b2.single_def(src["l"]) if src is not None and not src["p"] else None
+                        if sd_ is not None and sd_[2] == "assign":
+                            rv = sd_[3]
+                            continue
+                    break
+                if rv["k"] == "agg" and rv.get("variant") == "None":
+                    continue
+                if rv["k"] == "agg" and rv.get("variant") == "Some" and "read_box" in b2.canon_op(rv["ops"][0]):
+                    some += 1
+                    continue
+                return False
+    return some >= 1
+
+
 def run(fx, chk, tier):
     chk.rule("R1", "decoder, encoder and accessor item tables agree, cover the four keys and use the iTunes item codes; the wildcard arm only skips")
     chk.rule("R2", "metadata() = moov.udta.meta(mdir).ilst, empty on every absence path")
@@ -419,6 +480,8 @@ def run(fx, chk, tier):
                     ok, how = True, "the decoded movie box"
                 elif _decoded_option(b, mo):
                     ok, how = True, "the decoded movie box (taken out of the Option the walk filled)"
+                elif _decoded_field(fx, b, mo):
+                    ok, how = True, "the decoded movie box (taken out of the accumulator field the walk filled)"
                 else:
                     pl = op_place(mo) if mo is not None else None
                     sd = b.single_def(pl["l"]) if pl is not None and not pl["p"] else None
